@@ -36,6 +36,28 @@ def make_judge(res):
         if op.get("m") == "absent":
             res.count("measurement_absent")
         if out.agrees():
+            # the returned container is the caller's: scribbling over it must not change what the next call reports
+            if op["op"].startswith("get_") and res.evaluations % 3 == 0:
+                try:
+                    raw = s.raw_getter(op)
+                    if isinstance(raw, list):
+                        raw.append("scribble")
+                        raw.reverse()
+                    elif isinstance(raw, dict):
+                        for v in raw.values():
+                            if isinstance(v, list):
+                                v.append("scribble")
+                        raw["scribble"] = ["x"]
+                    again = s.do(op)
+                    s.log.pop()
+                    res.count("getter_results_scribbled_then_asked_again")
+                    if not again.agrees():
+                        res.violate(Violation(
+                            "C07", f"{op['op']}-hands-out-internal-state", dict(describe(s, again), note="the previous result of the same call was modified in place by the caller"),
+                            replay=replay_of(s), features={"serving": serving, "op": op["op"], "cfg": cfg, "scope": scope},
+                        ))
+                except Exception:
+                    pass
             return
         res.violate(Violation(
             "C07", "getter-raises" if out.exc is not None else f"{op['op']}-wrong",
@@ -74,6 +96,10 @@ def _cfg_variant(cfg, h):
     """Every third CSV history runs with flush_on_insert=False (reads go through the same buffered handle)."""
     if cfg["storage"] == "csv" and h % 3 == 0:
         return dict(cfg, flush=False)
+    if cfg["storage"] == "csv" and h % 7 == 4:
+        import csv as _csv
+
+        return dict(cfg, csv=[{"delimiter": ";"}, {"quotechar": "'", "quoting": _csv.QUOTE_ALL}, {"delimiter": "\t", "lineterminator": "\n"}][h % 3])
     return cfg
 
 
@@ -101,6 +127,7 @@ def run(res, tier, seed, shard, nshards):
                 res.require(f"answers.{g}.scan.{cfg_name(cfg)}")
     res.require("measurement_absent")
     res.require("scope.handle")
+    res.require("getter_results_scribbled_then_asked_again")
     res.assumptions += ["<= 12 rows; process TZ = UTC; documented order: keys/measurements sorted, tag values sorted with None last, field values and timestamps in insertion order"]
 
 
